@@ -4,12 +4,13 @@
    directive of our own. Run from the directory that should receive model.ml/model.mli. *)
 From Coq Require Extraction ExtrOcamlBasic.
 From Coq Require Import ZArith.
-From Parmcb Require Import GF2Model FpModel GraphModel ForestModel FvsModel SpannerModel.
+From Parmcb Require Import GF2Model FpModel FpOverflowModel GraphModel ForestModel FvsModel SpannerModel.
 Extraction Language OCaml.
 Set Extraction Optimize.
 Extraction "model.ml"
   Z.add Z.mul Z.opp Z.div_eucl Z.of_nat Z.to_nat Z.compare Z.eqb
   run_dump
   ext_gcd mult_inverse is_prime frun_dump
+  ext_gcd_tr mult_inverse_tr is_prime_tr frun_tr_dump tsummary
   simpleb create_index spanning_forest greedy_fvs greedy_fvs_det
   is_bfs_reachable construct_spanner spanner_weights stable_scan max_hops.
